@@ -163,6 +163,7 @@ CONTRACTS['evaluators.CurveEvaluator.derivatives'] = dict(
     ghost_args=OD([('d0', 'int')]),
     kwargs={},
     self={'_span_func': ('func', 'helpers.find_span_linear')},
+    funcs=FUNCS,
     replay_call="lambda m, a: m.CurveEvaluator().derivatives(a['datadict'], a['parpos'], a['deriv_order'])",
     replay_locals=OD([('degree', "datadict['degree'][0]"), ('ctrlpts', "datadict['control_points']"),
                       ('span', "helpers.find_span_linear(datadict['degree'][0], datadict['knotvector'][0], datadict['size'][0], parpos)"),
